@@ -29,3 +29,50 @@ package passiveauth
 //@   loop 1 invariant "checked-16": mapseen(1, 16) ==> len(sodHashOf(ref(doc.Mf.Lds1.Sod.LdsSecurityObject), 16)) > 0 && mapval(dgHashes, 16) === sodHashOf(ref(doc.Mf.Lds1.Sod.LdsSecurityObject), 16)
 //@   assigns nothing
 //@   safety all
+
+// case-insensitive comparison of two alpha-2 codes (strings.EqualFold): eqFold names its result
+//@ uf eqFold(seq, seq) bool
+//@ extern strings.EqualFold(s string, t string) (result bool)
+//@   ensures result == eqFold(s, t)
+//@   pure
+
+// the document's country: the security object's certificate country, which must agree with the MRZ issuing state when DG1 is present
+//@ func alpha2CountryCode
+//@   props C01 C12
+//@   requires doc != nil && (doc.Mf.Lds1.Sod != nil ==> doc.Mf.Lds1.Sod.SD != nil)
+//@   ensures "country-of-the-security-object": err == nil ==> doc.Mf.Lds1.Sod != nil && alpha2 === sodCountry(ref(doc.Mf.Lds1.Sod.SD))
+//@   ensures "agrees-with-the-mrz-issuing-state": err == nil && doc.Mf.Lds1.Dg1 != nil ==> eqFold(sodCountry(ref(doc.Mf.Lds1.Sod.SD)), dg1Country(ref(doc.Mf.Lds1.Dg1.Mrz)))
+//@   assigns nothing
+//@   safety all
+
+// trust anchors are restricted to the document's country
+//@ func countryCscaCerts
+//@   props C01 C12
+//@   requires doc != nil && trustedCerts != nil && (doc.Mf.Lds1.Sod != nil ==> doc.Mf.Lds1.Sod.SD != nil)
+//@   ensures "anchors-of-the-document-country-from-the-supplied-store": err == nil ==> countryCerts != nil && fresh(countryCerts) && doc.Mf.Lds1.Sod != nil
+//@        && poolCountry(ref(countryCerts)) === sodCountry(ref(doc.Mf.Lds1.Sod.SD)) && poolSource(ref(countryCerts)) == ref(trustedCerts)
+//@   ensures err != nil ==> countryCerts == nil
+//@   assigns nothing
+//@   safety all
+
+// Passive authentication succeeds only if: anchors for the document's country exist in the supplied store; every data
+// group present matches its signed hash-list entry; the security object verifies against exactly those anchors; and the
+// card security object, when present, verifies against them as well.
+//@ func PassiveAuth
+//@   props C01 C12
+//@   requires doc != nil && trustedCerts != nil
+//@   requires doc.Mf.Lds1.Sod != nil ==> doc.Mf.Lds1.Sod.SD != nil && doc.Mf.Lds1.Sod.LdsSecurityObject != nil
+//@   requires doc.Mf.CardSecurity != nil ==> doc.Mf.CardSecurity.SD != nil
+//@   ensures "result-always-present": result != nil && fresh(result)
+//@   ensures "success-iff-no-error": result.Success == (err == nil)
+//@   proves "data-groups-match-the-signed-hash-list": result.Success ==> doc.Mf.Lds1.Sod != nil && dgOK(*doc, 1) && dgOK(*doc, 2) && dgOK(*doc, 7) && dgOK(*doc, 11) && dgOK(*doc, 12)
+//@        && dgOK(*doc, 13) && dgOK(*doc, 14) && dgOK(*doc, 15) && dgOK(*doc, 16)
+//@   proves "security-object-verified-against-country-anchors-of-the-supplied-store": result.Success ==> countryCscaCertPool != nil
+//@        && len(countryCscaCertPool.certificates) >= 1
+//@        && poolCountry(ref(countryCscaCertPool)) === sodCountry(ref(doc.Mf.Lds1.Sod.SD)) && poolSource(ref(countryCscaCertPool)) == ref(trustedCerts)
+//@        && sdVerified(ref(doc.Mf.Lds1.Sod.SD), ref(countryCscaCertPool))
+//@   proves "card-security-object-verified-when-present": result.Success && doc.Mf.CardSecurity != nil ==> sdVerified(ref(doc.Mf.CardSecurity.SD), ref(countryCscaCertPool))
+//@        && result.CardSec != nil
+//@   ensures "card-security-chain-only-when-verified": result.Success ==> (result.CardSec != nil) == (doc.Mf.CardSecurity != nil)
+//@   assigns nothing
+//@   safety all
